@@ -6,6 +6,7 @@ utils.hpp `get_num_vertices`).  Tie to the code: the `net` correspondence dumps 
 exhaustively for small record lists and randomly beyond, for all label and weight types.
 -/
 import MTProofs.Graph
+import Mathlib.Data.List.GetD
 
 namespace MTProps.C08
 open MT MTProofs
@@ -102,6 +103,123 @@ theorem weight_expand_piece (m x : Nat) :
   | succ m ih =>
     rw [List.range_succ, List.flatMap_append, ← ih]
     simp [List.replicate_succ']
+
+/-! ### weight `m` ≡ `m` consecutive unit-weight records -/
+
+/-- a record with per-layer units `m_a` replaced by `max m_a` consecutive records whose layer-`a` unit is
+1 for the first `m_a` of them (an all-zero record is kept: it still creates its endpoints) -/
+def expandRec (r : IRec) : List IRec :=
+  let m := r.un.foldl max 0
+  if m = 0 then [r]
+  else (List.range m).map fun t => { r with un := r.un.map fun w => if t < w then 1 else 0 }
+
+theorem replicate_expand (x w m : Nat) (h : w ≤ m) :
+    (List.range m).flatMap (fun t => List.replicate (if t < w then 1 else 0) x) = List.replicate w x := by
+  induction m generalizing w with
+  | zero =>
+    have : w = 0 := by omega
+    subst this; rfl
+  | succ m ih =>
+    rw [List.range_succ, List.flatMap_append]
+    rcases Nat.lt_or_eq_of_le h with hlt | heq
+    · rw [ih w (by omega)]
+      simp only [List.flatMap_cons, List.flatMap_nil, List.append_nil]
+      rw [if_neg (by omega)]; simp
+    · subst heq
+      have h1 : (List.range m).flatMap (fun t => List.replicate (if t < m + 1 then 1 else 0) x)
+          = (List.range m).flatMap (fun t => List.replicate (if t < m then 1 else 0) x) := by
+        apply List.flatMap_congr
+        intro t ht
+        rw [List.mem_range] at ht
+        rw [if_pos (by omega), if_pos ht]
+      rw [h1, ih m (le_refl m)]
+      simp only [List.flatMap_cons, List.flatMap_nil, List.append_nil]
+      rw [if_pos (by omega)]
+      exact (List.replicate_succ' (n := m) (a := x)).symm
+
+theorem flatMap_replicate (l : List Nat) (f : Nat → Nat) (x : Nat) :
+    l.flatMap (fun t => List.replicate (f t) x) = List.replicate ((l.map f).sum) x := by
+  induction l with
+  | nil => rfl
+  | cons t ts ih => simp only [List.flatMap_cons, ih, List.map_cons, List.sum_cons, List.replicate_add]
+
+theorem le_foldl_max (l : List Nat) (init : Nat) : init ≤ l.foldl max init ∧ ∀ w ∈ l, w ≤ l.foldl max init := by
+  induction l generalizing init with
+  | nil => exact ⟨le_refl _, fun w hw => by simp at hw⟩
+  | cons x xs ih =>
+    simp only [List.foldl_cons]
+    obtain ⟨h1, h2⟩ := ih (max init x)
+    refine ⟨le_trans (le_max_left _ _) h1, fun w hw => ?_⟩
+    rcases List.mem_cons.mp hw with rfl | hw
+    · exact le_trans (le_max_right _ _) h1
+    · exact h2 w hw
+
+theorem unitsAt_le_max (r : IRec) (a : Nat) : Net.unitsAt r a ≤ r.un.foldl max 0 := by
+  unfold Net.unitsAt
+  by_cases h : a < r.un.length
+  · rw [List.getD_eq_getElem (l := r.un) (d := 0) h]
+    exact (le_foldl_max r.un 0).2 _ (List.getElem_mem h)
+  · rw [List.getD_eq_default (l := r.un) (d := 0) (by omega)]; omega
+
+/-- the contribution of one record to an adjacency list is the concatenation of the contributions of
+its unit-weight expansion: end to end, an integer weight `m` is equivalent to `m` consecutive
+unit-weight records (same endpoints in the same place, so the vertex order is unchanged too) -/
+theorem weight_expand_equiv {β : Type} (n : Net β) (a i : Nat) :
+    ({ n with recs := n.recs.flatMap expandRec } : Net β).out a i = n.out a i := by
+  unfold Net.out
+  simp only [List.flatMap_assoc]
+  apply List.flatMap_congr
+  intro r _
+  unfold expandRec
+  simp only
+  split
+  · simp
+  · rename_i hm
+    rw [List.flatMap_map]
+    have hle := unitsAt_le_max r a
+    have hunits : ∀ t, Net.unitsAt { r with un := r.un.map fun w => if t < w then 1 else 0 } a =
+        if t < Net.unitsAt r a then 1 else 0 := by
+      intro t
+      unfold Net.unitsAt
+      simp only
+      by_cases h : a < r.un.length
+      · simp [List.getD_eq_getElem?_getD, h]
+      · have h' : r.un.length ≤ a := by omega
+        simp [List.getD_eq_getElem?_getD, List.getElem?_eq_none, h']
+    simp only [Function.comp, hunits]
+    by_cases h1 : r.src = i <;> by_cases h2 : (!n.directed && decide (r.dst = i)) = true
+    · -- self-loop in an undirected network: every copy is the same vertex
+      have hdst : r.dst = i := by
+        have := (Bool.and_eq_true _ _ ▸ h2).2
+        simpa using this
+      have hsrc : r.src = i := h1
+      simp only [h2, ↓reduceIte]
+      simp only [h1, ↓reduceIte, hdst]
+      have hsum : ((List.range (r.un.foldl max 0)).map fun t => if t < Net.unitsAt r a then 1 else 0).sum
+          = Net.unitsAt r a := by
+        have := congrArg List.length (replicate_expand i _ _ hle)
+        rw [flatMap_replicate, List.length_replicate, List.length_replicate] at this
+        exact this
+      have hpiece : ∀ t, List.replicate (if t < Net.unitsAt r a then 1 else 0) i ++
+          List.replicate (if t < Net.unitsAt r a then 1 else 0) i =
+          List.replicate ((if t < Net.unitsAt r a then 1 else 0) + (if t < Net.unitsAt r a then 1 else 0)) i :=
+        fun t => (List.replicate_add _ _ _).symm
+      simp only [hpiece]
+      rw [flatMap_replicate, ← List.replicate_add]
+      congr 1
+      have : ((List.range (r.un.foldl max 0)).map fun t =>
+          (if t < Net.unitsAt r a then 1 else 0) + (if t < Net.unitsAt r a then 1 else 0)).sum =
+          ((List.range (r.un.foldl max 0)).map fun t => if t < Net.unitsAt r a then 1 else 0).sum +
+          ((List.range (r.un.foldl max 0)).map fun t => if t < Net.unitsAt r a then 1 else 0).sum := by
+        induction (List.range (r.un.foldl max 0)) with
+        | nil => rfl
+        | cons t ts ih => simp only [List.map_cons, List.sum_cons, ih]; omega
+      rw [this, hsum]
+    · simp only [h1, ↓reduceIte, h2, Bool.false_eq_true, List.append_nil]
+      exact replicate_expand r.dst _ _ hle
+    · simp only [h1, ↓reduceIte, h2, List.nil_append]
+      exact replicate_expand r.src _ _ hle
+    · simp [h1, h2]
 
 /-- non-vacuity: a two-record undirected example with a self-loop and a weight 2 -/
 example :
